@@ -132,7 +132,11 @@ def apply(m, sh, op, ctx_state, c, case):
                                         'model of the same definition', case)
                     else:
                         from bioscrape.simulator import DeterministicSimulator
-                        ctx_state['iface'].py_prep_deterministic_simulation()
+                        # prepared once per interface object: a later run on the kept interface uses it as it is, whatever was
+                        # prepared or integrated elsewhere in between
+                        if ctx_state.get('prepared') is not ctx_state['iface']:
+                            ctx_state['iface'].py_prep_deterministic_simulation()
+                            ctx_state['prepared'] = ctx_state['iface']
                         r_ = DeterministicSimulator().py_simulate(ctx_state['iface'], TIMES)
                         ref_ = py_simulate_model(TIMES, Model=sh.fresh(), stochastic=False, return_dataframe=False)
                         a_, b_ = np.asarray(r_.py_get_result()), np.asarray(ref_.py_get_result())
@@ -180,6 +184,36 @@ def observe(m):
     obs['S'] = np.asarray(m.py_get_update_array())[perm, :].tolist()
     obs['Sd'] = np.asarray(m.py_get_delay_update_array())[perm, :].tolist()
     return obs
+
+
+def seed_gap(c, seeds):
+    """the same seed gives the same stream and the same trajectories now and more than a second later (seed 0 means 'from the clock')"""
+    import time
+    from bioscrape.simulator import py_simulate_model
+    import bioscrape.random as br
+    sh = Shadow()
+
+    def sample(seed):
+        br.py_seed_random(seed)
+        us = [br.py_uniform_rv() for _ in range(6)] + [br.py_rand_int()]
+        br.py_seed_random(seed)
+        with warnings.catch_warnings():
+            warnings.simplefilter('ignore')
+            r = py_simulate_model(TIMES, Model=sh.fresh(), stochastic=True, return_dataframe=False)
+        return us, np.asarray(r.py_get_result()).tolist()
+    first = {sd: sample(sd) for sd in seeds}
+    again = {sd: sample(sd) for sd in seeds}
+    time.sleep(1.2)
+    later = {sd: sample(sd) for sd in seeds}
+    for sd in seeds:
+        c.count('states'); c.count('traces'); c.count('evaluations', 3); c.count('transitions', 3)
+        if first[sd] != again[sd] or first[sd] != later[sd]:
+            c.violation('C08/not-repeatable/seed', 'seed %d gives %s first, %s immediately again and %s 1.2 s later' % (
+                sd, first[sd][0][:2], again[sd][0][:2], later[sd][0][:2]), dict(seeds=[sd], seed_gap=True))
+        else:
+            c.nontrivial(('seed', sd))
+    if len({str(v) for v in first.values()}) < 2:
+        c.harness_error('all seeds give the same stream')
 
 
 def check(c, hist):
@@ -234,6 +268,8 @@ def run(ctx):
         # deeper than the general bound over small sub-alphabets (a third / fourth initialisation, a fifth simulation)
         deep = ['r_gdelay', 'rule_dt', 'init', 'sim_ssa', 'sim_det', 'setp']
         hists += list(itertools.product(deep, repeat=4)) + list(itertools.product(deep[1:5], repeat=5)) + list(itertools.product(['rule_dt', 'init', 'sim_det'], repeat=6))
+    seeds = [1, 2, 1234, 2 ** 31 - 1, 2 ** 31, 2 ** 32 - 1, 2 ** 32, 2 ** 32 + 5, 3 * 2 ** 32, 2 ** 40, 2 ** 53 + 1, 2 ** 63, 2 ** 64 - 1]
+    pmap(seed_gap, [seeds[:7], seeds[7:]], ctx, nshards=2)
     pmap(check, hists, ctx, nshards=512)
     ctx.bounds = dict(history_length=L, alphabet=OPS, histories=len(hists))
     ctx.rule = ('E3: every operation sequence up to the length bound over {add species; add a mass-action / proportional-Hill (named parameters) / '
@@ -243,10 +279,12 @@ def run(ctx):
                 'definition is maintained. After every history: seeded SSA / safe / volume / delay trajectories (2 seeds + a scripted stream), '
                 'the deterministic trajectory, dictionaries and both matrices must equal those of a model built at once from the shadow '
                 'definition (bit-equal; deterministic rounded to 1e-9); seeding and simulating twice must agree; the dictionaries read before '
-                'and after every simulate operation must be identical. Histories are not merged (the hidden C-level state is what is under '
+                'and after every simulate operation must be identical. Thirteen seeds up to 2^64-1 (incl. multiples of 2^32) must give the same stream and trajectory immediately and 1.2 s later. Histories are not merged (the hidden C-level state is what is under '
                 'test); quick adds length 4 over a 6-letter, length 5 over a 4-letter and length 6 over a 3-letter sub-alphabet; thorough adds length 5 over a 10-letter, length 6 over a 5-letter and length 7 over a 4-letter sub-alphabet. states = histories.')
     ctx.assumptions = ['a species that was never given a value reads -1 until the first initialisation defaults it to 0; both are read as 0', 'no rule assigns a parameter (premise of the property)', 'an interface that predates an edit is not driven']
 
 
 def replay(ctx, case):
+    if case.get('seed_gap'):
+        return seed_gap(ctx, case['seeds'])
     check(ctx, tuple(case['history']))
